@@ -1,9 +1,9 @@
 package rules
 
 import (
-	"go/constant"
 	"fmt"
 	"go/ast"
+	"go/constant"
 	"go/token"
 	"go/types"
 	"sort"
@@ -602,7 +602,6 @@ func isBytesBuffer(t types.Type) bool { return core.NamedTypeName(t) == "bytes.B
 func c12InvariantsFrom(r *core.Report, rule, table string) {
 	checkInvariantTable(r, rule, table)
 }
-
 
 // constOrLocalConst: the constant value of e, also when e is a local variable assigned a constant exactly once.
 func constOrLocalConst(f *core.Func, e ast.Expr) (int64, bool) {
